@@ -4,6 +4,7 @@ package c07
 
 import (
 	"context"
+	"encoding/json"
 	"fmt"
 	"io/ioutil"
 	"os"
@@ -22,6 +23,7 @@ import (
 	dssync "github.com/ipfs/go-datastore/sync"
 	ipfscluster "github.com/ipfs/ipfs-cluster"
 	"github.com/ipfs/ipfs-cluster/api"
+	"github.com/ipfs/ipfs-cluster/config"
 	"github.com/ipfs/ipfs-cluster/consensus/crdt"
 	"github.com/ipfs/ipfs-cluster/consensus/raft"
 	"github.com/ipfs/ipfs-cluster/version"
@@ -31,6 +33,7 @@ import (
 	rpc "github.com/libp2p/go-libp2p-gorpc"
 	pubsub "github.com/libp2p/go-libp2p-pubsub"
 	routinghelpers "github.com/libp2p/go-libp2p-routing-helpers"
+	ma "github.com/multiformats/go-multiaddr"
 	"pgregory.net/rapid"
 )
 
@@ -98,9 +101,10 @@ func badArg(e endpoint) interface{} {
 }
 
 var (
-	callers [2]host.Host // B, C
-	workdir string
-	caseN   int64
+	trustForm string       // how the last target's trusted_peers was written
+	callers   [2]host.Host // B, C
+	workdir   string
+	caseN     int64
 )
 
 func TestMain(m *testing.M) {
@@ -146,11 +150,40 @@ func newTarget(t *rapid.T, mode string, listed []peer.ID) *target {
 		if err != nil {
 			t.Fatal(err)
 		}
+		// the trust configuration arrives the way it does in a deployment:
+		// as the crdt section of the configuration file, with the list
+		// written in one of the forms the file format allows
+		jm := map[string]interface{}{"cluster_name": fmt.Sprintf("verif-c07-%d-%d", os.Getpid(), atomic.AddInt64(&caseN, 1))}
+		var ids []interface{}
+		for _, p := range listed {
+			ids = append(ids, peer.Encode(p))
+		}
+		form := "list"
+		switch mode {
+		case "crdt-trustall":
+			form = rapid.SampledFrom([]string{"star", "star-and-ids"}).Draw(t, "trustForm")
+			if form == "star" {
+				jm["trusted_peers"] = []interface{}{"*"}
+			} else {
+				jm["trusted_peers"] = append([]interface{}{peer.Encode(gen.Peers[9])}, "*")
+			}
+		case "crdt-empty":
+			form = rapid.SampledFrom([]string{"absent", "null", "empty"}).Draw(t, "trustForm")
+			switch form {
+			case "null":
+				jm["trusted_peers"] = nil
+			case "empty":
+				jm["trusted_peers"] = []interface{}{}
+			}
+		default:
+			jm["trusted_peers"] = ids
+		}
+		jb, _ := json.Marshal(jm)
 		cfg := &crdt.Config{}
-		cfg.Default()
-		cfg.ClusterName = fmt.Sprintf("verif-c07-%d-%d", os.Getpid(), atomic.AddInt64(&caseN, 1))
-		cfg.TrustAll = mode == "crdt-trustall"
-		cfg.TrustedPeers = listed
+		if err := cfg.LoadJSON(jb); err != nil {
+			t.Fatalf("crdt section %s does not load: %v", jb, err)
+		}
+		trustForm = form
 		cc, err := crdt.New(h, routinghelpers.Null{}, psub, cfg, dssync.MutexWrap(ds.NewMapDatastore()))
 		if err != nil {
 			t.Fatalf("crdt: %v", err)
@@ -163,7 +196,7 @@ func newTarget(t *rapid.T, mode string, listed []peer.ID) *target {
 
 func isAuthErr(err error) bool { return err != nil && rpc.IsAuthorizationError(err) }
 
-const rule = "case = consensus mode (Raft single member; CRDT with explicit trusted list, empty list, trust-all) x which of the two remote callers is listed x a sequence of 0-4 Trust/Distrust calls; after every step every RPC endpoint registered by the peer (found by reflection) is called by both remote callers over real libp2p connections with an undecodable argument, so the error class shows the authorisation decision without running the handler (the finite endpoint x caller matrix is exhaustive per step); oracle = frozen table OPEN / TRUSTED / LOCAL: an allowed call implies the endpoint is OPEN, or TRUSTED and the caller is trusted by the model; endpoints missing from the table must be refused to untrusted callers; non-trivial = a caller's trust differs from the initial configuration at some step; distinct by mode + listing + history"
+const rule = "case = consensus mode (Raft single member; CRDT with explicit trusted list, empty list, trust-all; loaded from the JSON section with trusted_peers written as a list, '*', '*' among IDs, [], null or absent) x which of the two remote callers is listed x a sequence of 0-4 Trust/Distrust calls; after every step every RPC endpoint registered by the peer (found by reflection) is called by both remote callers over real libp2p connections with an undecodable argument, so the error class shows the authorisation decision without running the handler (the finite endpoint x caller matrix is exhaustive per step); oracle = frozen table OPEN / TRUSTED / LOCAL: an allowed call implies the endpoint is OPEN, or TRUSTED and the caller is trusted by the model; endpoints missing from the table must be refused to untrusted callers; non-trivial = a caller's trust differs from the initial configuration at some step; distinct by mode + listing + history"
 
 func TestRPCPolicy(t *testing.T) {
 	leg := ev.L("rpc-policy", rule)
@@ -357,6 +390,78 @@ func TestPubsubRelay(t *testing.T) {
 		}
 		if !waitPin(X, marker.Cid.String(), 30*time.Second) {
 			leg.Inconclusive("T's marker did not reach X within 30 s")
+			t.Skip("inconclusive")
+		}
+		leg.Case(fmt.Sprintf("n=%d", n), true)
+	})
+}
+
+const ruleForged = "a victim replica built on the host and pubsub instance of the real ipfscluster.NewClusterHost, trusting only peer T; an attacker in the same swarm runs its own replica over a pubsub instance that does not sign and labels its messages with T's peer ID; the attacker publishes 1-3 pins; after a 2 s observation the victim must hold none of them (an update that is not signed by a trusted peer must not alter the pinset); then a trusted, correctly signing replica T' (listed by the victim) publishes a marker that must arrive (the path works); non-trivial = always; distinct by parameters"
+
+func TestPubsubForgedAuthor(t *testing.T) {
+	leg := ev.L("pubsub-forged-author", ruleForged)
+	rapid.Check(t, func(t *rapid.T) {
+		ctx := context.Background()
+		name := fmt.Sprintf("verif-c07f-%d-%d", os.Getpid(), atomic.AddInt64(&caseN, 1))
+		// victim: the cluster's own host and pubsub construction
+		ccfg := &ipfscluster.Config{}
+		ccfg.Default()
+		la, _ := ma.NewMultiaddr("/ip4/127.0.0.1/tcp/0")
+		ccfg.ListenAddr = []ma.Multiaddr{la}
+		ccfg.Secret = nil
+		ident := &config.Identity{ID: gen.Peers[2], PrivateKey: gen.PeerKeys[2]}
+		vh, vps, vdht, err := ipfscluster.NewClusterHost(ctx, ident, ccfg, dssync.MutexWrap(ds.NewMapDatastore()))
+		if err != nil {
+			t.Fatalf("VERIF-INFRA NewClusterHost: %v", err)
+		}
+		defer vh.Close()
+		defer vdht.Close()
+		trusted := gen.Peers[3] // T, whose name the attacker uses; also a real replica below
+		V := fakes.NewCRDTReplicaOn(vh, vps, func(c *crdt.Config) { c.ClusterName = name; c.TrustedPeers = []peer.ID{trusted} })
+		defer V.Cons.Shutdown(ctx)
+		// attacker: unsigned messages carrying T's ID as author
+		ah, err := libp2p.New(ctx, libp2p.Identity(gen.PeerKeys[1]), libp2p.ListenAddrStrings("/ip4/127.0.0.1/tcp/0"))
+		if err != nil {
+			t.Fatal(err)
+		}
+		defer ah.Close()
+		aps, err := pubsub.NewGossipSub(ctx, ah, pubsub.WithMessageSignaturePolicy(pubsub.LaxNoSign), pubsub.WithMessageAuthor(trusted))
+		if err != nil {
+			t.Fatalf("VERIF-INFRA attacker pubsub: %v", err)
+		}
+		A := fakes.NewCRDTReplicaOn(ah, aps, func(c *crdt.Config) { c.ClusterName = name; c.TrustAll = true })
+		defer A.Cons.Shutdown(ctx)
+		// the genuine T
+		T := fakes.NewCRDTReplica(gen.PeerKeys[3], func(c *crdt.Config) { c.ClusterName = name; c.TrustAll = true })
+		defer T.Close()
+		if err := ah.Connect(ctx, peer.AddrInfo{ID: vh.ID(), Addrs: vh.Addrs()}); err != nil {
+			t.Fatalf("VERIF-INFRA connect: %v", err)
+		}
+		if err := T.H.Connect(ctx, peer.AddrInfo{ID: vh.ID(), Addrs: vh.Addrs()}); err != nil {
+			t.Fatalf("VERIF-INFRA connect: %v", err)
+		}
+		time.Sleep(500 * time.Millisecond)
+		n := rapid.IntRange(1, 3).Draw(t, "n")
+		var forged []string
+		for i := 0; i < n; i++ {
+			if err := A.Cons.LogPin(ctx, api.PinCid(gen.Cids[i])); err != nil {
+				t.Fatalf("attacker LogPin: %v", err)
+			}
+			forged = append(forged, gen.Cids[i].String())
+		}
+		time.Sleep(2 * time.Second)
+		got := pinsOf(V)
+		for _, c := range forged {
+			if got[c] {
+				t.Fatalf("the victim trusts only %s; an unsigned update carrying that ID as author, published by another peer, altered its pinset (%s)", trusted, c)
+			}
+		}
+		marker := api.PinCid(gen.Cids[7])
+		if err := T.Cons.LogPin(ctx, marker); err != nil {
+			t.Fatalf("T.LogPin: %v", err)
+		}
+		if !waitPin(V, marker.Cid.String(), 30*time.Second) {
+			leg.Inconclusive("the trusted peer's marker did not reach the victim within 30 s")
 			t.Skip("inconclusive")
 		}
 		leg.Case(fmt.Sprintf("n=%d", n), true)
